@@ -13,8 +13,7 @@ def claim(pid, technique, text, note, ref):
 claim("C07", "typestate/ownership rules over AST+CFG: lock dominates store, single-writer scan, read-only guard dominance, hierarchy-aware isinstance feasibility",
       "Decides the structural conditions under which a field's buffer can change after construction: the lock is "
       "effective for numpy buffers, every constructor path locks before storing, only constructors write the storage "
-      "attributes, every AnyArray mutator tests the read-only state, *_rw accessors copy. Holds for all inputs because "
-      "it is a statement about every path of the code.", TRUST, "DESIGN.md section 4, C07")
+      "attributes, every AnyArray mutator tests the read-only state, *_rw accessors copy, constructors never wrap a library-made view of a caller-owned array, and no method hands out a field built on an instance buffer it later rewrites. Holds for all inputs because it is a statement about every path of the code.", TRUST, "DESIGN.md section 4, C07")
 
 
 
@@ -24,82 +23,77 @@ claim("C02", "F-INIT definite attribute assignment over the class hierarchy; dom
       "sums over duplicates / applying never modifies the input': required attributes are assigned on every constructor path, the "
       "domain/mode check dominates every use of the input, every advertised mode reaches a valued return, locally constructed "
       "results are built on _tgt(mode), no store targets (a view of) the input's buffer, and scatters through repeating indices "
-      "accumulate. The inner-product identity and the numerical action are not decided.", TRUST, "DESIGN.md section 4, C02")
+      "accumulate; result buffers allocated in apply() take their dtype from the input, the linear interpolator derives base cell and excess from one floor with corner weights prod|1-c-e|, the outer product's adjoint contracts with the conjugated field, and nested sums are unpacked with XOR-ed sign flags. The inner-product identity in general and the numerical action are not decided.", TRUST, "DESIGN.md section 4, C02")
 
 claim("C21", "who-may-call scan of randomness sources; CFG pairing (push/pop on every exit); context-manager protocol check; def-use typestate of JAX keys",
       "Decides the randomness discipline that makes a run a function of its seed: generators are only derived from the seed "
       "stack or explicit keys, Context.__exit__ restores the stack on every path and never swallows exceptions, every push has "
       "its pop on every loop/function exit, and the VI driver splits its carried key exactly once per iteration and stores the "
-      "unconsumed half. Bit-identity across vmap/lmap/JIT is numerical and not decided.", TRUST, "DESIGN.md section 4, C21")
+      "unconsumed half; keys duplicated for sharding are restored under the same condition, iterations without fresh stochasticity get a NEW seed sequence rebuilt from the previous one's state, a resumed JAX run keeps the loaded key, and the classic driver prepares the seed chain for all iterations from 0 with nothing drawing before the per-iteration push. Bit-identity across vmap/lmap/JIT is numerical and not decided.", TRUST, "DESIGN.md section 4, C21")
 
 claim("C24", "file-system effect summary + dominance: temp-file/os.replace protocol, writer/reader agreement, liveness of loop-carried state",
       "Decides that the state file the resume branch reads is only ever replaced atomically by a completely written and closed "
       "temporary file, that the dumped tuple matches the unpacking on load (with the stripped config re-attached), and that "
-      "every loop-carried variable is part of the dump and stems from the same update. These hold for every crash point because "
-      "they are statements about all paths of the driver.", TRUST, "DESIGN.md section 4, C24")
+      "every loop-carried variable is part of the dump and stems from the same update, and that the driver object keeps no iteration-dependent state outside the checkpoint. These hold for every crash point because they are statements about all paths of the driver.", TRUST, "DESIGN.md section 4, C24")
 
 claim("C25", "file-system effect summary over the call graph of optimize_kl.py: read-set/write-set agreement, commit-marker ordering (reachability within an iteration), atomic-writer protocol, constant evaluation of the file-name strategy",
       "Decides that every file the resume branch reads is written by the iteration the marker names under the same name "
       "template, that no such file is written after the marker within an iteration, that marker/history/sample pickles are "
       "written via temp file + rename, and that file names depend on the iteration index under every accepted save_strategy "
-      "(violated for 'latest': known finding).", TRUST, "DESIGN.md section 4, C25")
+      "(violated for 'latest': known finding), and that the seed chain a resumed run rebuilds is prepared from iteration 0.", TRUST, "DESIGN.md section 4, C25")
 
 claim("C27", "definite-assignment dataflow under enumerated valuations of never-rebound option parameters; push/pop pairing on the CFG; dominance of option validation",
       "Decides for optimize_kl and its helpers that no local is used unassigned along any option-consistent path, that the "
       "per-iteration seed sequence is popped on every exit of the iteration (continue, break, return), and that enumerated "
-      "options are validated before use. Correctness of the numbers produced by each combination is not decided.", TRUST,
+      "options are validated before use, per-iteration options are evaluated with the loop's own index, output directories are created under the option that enables their writer, every completed iteration is inspected, energies receive the iteration's constants/point estimates/comm, the driver's own writes overwrite, and callback arity comes from inspect.signature. Correctness of the numbers produced by each combination is not decided.", TRUST,
       "DESIGN.md section 4, C27")
 
 claim("C01", "exhaustive constant evaluation of the mode/capability tables against their XOR group law; symbolic extraction of each composite's capability formula",
       "Decides the mode/capability bookkeeping of the operator algebra: all 124+ table entries and the direction selectors are "
       "checked by complete enumeration (exhaustive), and every composite class advertises exactly the capability the property "
       "prescribes (sum: (TIMES|ADJOINT) & all; chain/block: 15 & all over the stored collection; adapter/inversion enabler via "
-      "the tables; wrappers = wrapped). The numerical action of leaf operators and the simplifiers' arithmetic are not decided.",
+      "the tables; wrappers = wrapped). Mode-specialised interpretation also decides the dispatch of chain/sum/adapter/diagonal/scaling per mode, the lazy-transformation algebra of DiagonalOperator's simplifier methods (_add/_scale/_combine_*), the |f|^2 scaling shortcut of SandwichOperator.make and the XOR sign rule of nested-sum unpacking. The numerical action of other leaf operators is not decided.",
       TRUST, "DESIGN.md section 4, C01")
 
 claim("C06", "sibling/table comparison of the setattr-generated dunder tables; dominance of the domain-identity check; argument-order tracing along the vdot call chain",
       "Decides that field arithmetic is delegated name-preservingly to the array layer (so a-b can never run __add__), that "
       "operands on different domains are rejected before any computation, and that the first argument of every dot product is "
-      "the conjugated one along the whole call chain (invisible to tests on real fields). Volume factors and norms are numerical "
-      "and not decided.", TRUST, "DESIGN.md section 4, C06")
+      "the conjugated one along the whole call chain (invisible to tests on real fields). Later rules decide further shape clauses: var and s_var use the same squared deviation per dtype, dot-product back ends cast an operand only under its own dtype test, the order of a norm reaches numpy on every layer and the multi-field norm is the p-norm of the partial p-norms (two-entry symbolic reading), every return of the contraction helper applies the reduction, and Field.weight writes non-scalar volumes at array axes, not at sub-domain indices. The numerical values of volumes and reductions are not decided.", TRUST, "DESIGN.md section 4, C06")
 
 claim("C23", "rank-taint (F-UNIFORM) over reaching definitions, guard extraction for the send/receive roles, protocol-sequence comparison of _send/_recv",
       "Checks the four premises of the deadlock-freedom / partition-independence argument on the source: all tasks execute the same "
       "pair-step sequence (no rank- or data-dependent loop condition or collective), send and receive of a step address each "
       "other and are mutually exclusive, the message sub-protocols match element by element, and both additions combine the "
-      "accumulator slot with the partner slot. With the premises, the induction in DESIGN.md gives the property for every task "
-      "count and interleaving.", TRUST, "DESIGN.md section 4, C23")
+      "accumulator slot with the partner slot; raw-array payloads are C-contiguous on the sending side of _send and _bcast (truth-table check of bypass guards) and the broadcasting task is the root of its collectives. With the premises, the induction in DESIGN.md gives the property for every task count and interleaving.", TRUST, "DESIGN.md section 4, C23")
 
 claim("C32", "data-dependence shape check (F-SHAPE) of leapfrog_step via reaching definitions",
       "Decides the integrator clause: leapfrog_step is a palindromic kick-drift-kick composition of shears with equal half steps "
       "(each kick reads only the then-current position, the drift only the half-step momentum), hence time-reversible and "
-      "volume-preserving for every potential, step size and mass matrix. Invariance of the target under the full HMC/NUTS "
-      "transition is statistical and not decided.", TRUST, "DESIGN.md section 4, C32")
+      "volume-preserving for every potential, step size and mass matrix. Further rules decide mass-matrix consistency between momentum draw, kinetic energy and stepper (exact polynomial normal form), the candidate-selection probabilities of the NUTS tree merge (expit / min(1, exp) of the weight difference in the right slot), single consumption of every PRNG key binding, and the HMC accept/reject rule incl. NaN -> reject. Invariance of the target under the full transition is statistical and not decided.", TRUST, "DESIGN.md section 4, C32")
 
 claim("C33", "table check of Vector's dunder bindings and of the operand order of the binary-op factories",
       "Decides that every arithmetic/comparison/unary dunder of the pytree vector is bound to its own operator with forward "
-      "variants applying op(lhs, rhs) and reflected variants op(rhs, lhs). Reductions, norms and smap/lmap==vmap are numerical "
-      "and not decided.", TRUST, "DESIGN.md section 4, C33")
+      "variants applying op(lhs, rhs) and reflected variants op(rhs, lhs); that size/dot/vdot/norm reductions map the jnp namesake over the leaves in operand order and add up, and that the sequential maps move mapped axes to/from axis 0 in moveaxis order. Numerical agreement of smap/lmap with vmap is not decided.", TRUST, "DESIGN.md section 4, C33")
 
 claim("C08", "who-may-call scan of the domain constructors; dominance/reaching-definition check of the cache protocol in make(); F-INIT for the hash key attributes",
       "Decides the identity clause: DomainTuple/MultiDomain objects can only come out of make(), which looks up and stores under "
       "the same canonical key, constructs only after a failed lookup and returns what it stored; pickling re-creates through the "
       "factory; every attribute of a domain's hash key is assigned on all constructor paths, never re-assigned and bound to a "
-      "hashable canonical value. Volumes, k-length tables and binning are numerical and not decided.", TRUST, "DESIGN.md section 4, C08")
+      "hashable canonical value; constructor branches compute hash-key attributes with the same arithmetic; PowerSpace counts all len(bounds)+1 bins and raises on an empty one before caching. Volumes and k-length tables are numerical and not decided.", TRUST, "DESIGN.md section 4, C08")
 
 claim("C12", "typed freeze table for LikelihoodPartial; structural recognition (after let-inlining) of the jvp/vjp sandwich in LikelihoodWithModel; sibling comparison of LikelihoodSum methods; method-set exhaustiveness",
       "Decides that amending a forward model, adding likelihoods and freezing point estimates preserve the factorisation "
       "identities structurally: every wrapper method delegates to the same-named method of the wrapped likelihood with tangents "
       "pushed forward / results pulled back with the conjugated vjp exactly where the types require, frozen positions are "
       "inserted as positions and as zero tangents, and the base-class defaults encode metric = L after R, R = conj transpose of L, "
-      "L = conj vjp of the transformation. That a concrete metric equals the Fisher information is not decided.", TRUST,
+      "L = conj vjp of the transformation. For diagonal likelihoods the metric coefficient is the squared left-sqrt coefficient, and for the one-parameter Gaussian/StudentT/Poissonian likelihoods metric = E_d[d^2 energy/dp^2] = left_sqrt^2 = (dT/dp)^2 is decided per entry on terms read from the source (sympy as normaliser). Other likelihoods' Fisher identity is not decided.", TRUST,
       "DESIGN.md section 4, C12")
 
 claim("C14", "status-discipline dominance check over every return of ConjugateGradient.__call__; linear normal form of QuadraticEnergy's constructor branches; def-use check of the CG recurrence",
       "Decides that CG reports CONVERGED only under an exact-zero residual test or as the controller's verdict on the very energy it "
       "returns, that every iteration consults the controller, that the gradient handed to at_with_grad is the recurrence residual of "
       "the step actually taken, and that in both constructor branches of the quadratic energy Ax - gradient = b with the value built "
-      "from the same Ax. That the residual criterion is numerically met is not decided.", TRUST, "DESIGN.md section 4, C14")
+      "from the same Ax; iteration controllers re-initialise in start() every attribute check() reads or updates, the CG driver never stores into the energy object, and the relative energy criterion divides by max(|E_old|, |E|) without an absolute floor. That the residual criterion is numerically met is not decided.", TRUST, "DESIGN.md section 4, C14")
 
 claim("C15", "sibling comparison after normalisation: guarded-assignment extraction with where/cond unfolding, mode-free symbolic forward substitution of one regular iteration in both solvers, sign-domain check of the fallback step",
       "Decides that the eager and the compiled CG are the same algorithm: every defining term of the shared state, the complete "
@@ -110,21 +104,20 @@ claim("C15", "sibling comparison after normalisation: guarded-assignment extract
 
 claim("C16", "dominance check of the acceptance guard and status discipline in DescentMinimizer.__call__ (and non-delegating overrides)",
       "Decides that the line-search result becomes the iterate only on the false edge of new.value > old.value, whose true edge returns "
-      "ERROR with the old energy, and that every return carries a controller verdict, ERROR or a guarded CONVERGED. Wolfe conditions "
-      "and equality of the two L-BFGS directions are numerical and not decided.", TRUST, "DESIGN.md section 4, C16")
+      "ERROR with the old energy, that every return carries a controller verdict, ERROR or a guarded CONVERGED, that every successful return of the line search is dominated by the sufficient-decrease and the strong curvature test evaluated at the returned step, and that the VL-BFGS Gram matrices are written with indices typed by the vector list they belong to. Equality of the two L-BFGS directions is numerical and not decided.", TRUST, "DESIGN.md section 4, C16")
 
 claim("C17", "dominance check of the no-uphill acceptance in both Newton-CG variants; sibling comparison eager vs compiled (+ line search); sign check of trial point and CG fallback",
       "Decides for the two Newton-CG minimisers that a new point is accepted only after new_energy <= current energy (eager: guard "
       "dominance; compiled: success flag only under that comparison, copies only on success), that eager and compiled variants agree "
       "on CG tolerances, trial point, halving, reset, abort and convergence conditions, and that under negative curvature the step "
-      "is along the negative gradient. The trust-region minimiser's no-uphill clause depends on a numerical fact and is not decided.",
+      "is along the negative gradient; the compiled line search's net update of the step scaling per trial is decided on exact linear forms, and the trust-region sub-problem takes, at negative curvature, the boundary intersection with the lower model value. The trust-region minimiser's no-uphill clause depends on a numerical fact and is not decided.",
       TRUST, "DESIGN.md section 4, C17")
 
 claim("C22", "rank-taint over reaching definitions + name/receiver-resolved collective summaries over the call graph of the four MPI modules; branch-symmetry comparison of collective sequences; who-may-call scan for MPI reductions; structural check of per-sample seeding",
       "Decides the SPMD structure behind task-count independence: no collective (direct or via a callee) is control dependent on "
       "the rank unless both arms perform the same collectives, loops that contain collectives have rank-independent bounds, sums "
       "across tasks only go through the deterministic pairwise reducer, and every per-sample draw happens inside a context seeded "
-      "by the sample's global index (mirrored pairs share the duplicated seed). Actual multi-process runs are not executed.", TRUST,
+      "by the sample's global index (mirrored pairs share the duplicated seed); per-sample results never read how many samples the task has already produced, energies in the driver loop receive the iteration's constants/point estimates/comm on both paths, and iteration controllers shared across samples are re-initialised by start(). Actual multi-process runs are not executed.", TRUST,
       "DESIGN.md section 4, C22")
 
 claim("C26", "writer template vs reader regular expression (regex AST inclusion), index-extraction and reconstruction templates, dominance of the stale-sample barrier, loop-variable roles",
@@ -137,32 +130,31 @@ claim("C09", "table check: values the configuration writer can store vs literals
       "Decides that the three Hartley implementations (ducc, SciPy, JAX) read the same configuration key with literals the writer "
       "can actually produce and with the same polarity, and that FFT/Hartley operators take the volume factor from the domain for "
       "TIMES/ADJOINT and from the target for the inverse modes, build the result on _tgt(mode) and pick the direction from the "
-      "input's harmonic flag. Numerical agreement of the transforms and SHT normalisation are not decided.", TRUST, "DESIGN.md section 4, C09")
+      "input's harmonic flag; the configuration dict is shared by identity, every back end forwards its axes argument to each transform call, and the correlated-field maker transforms exactly the axes a sub-grid occupies. Numerical agreement of the transforms and SHT normalisation are not decided.", TRUST, "DESIGN.md section 4, C09")
 
 claim("C10", "gather/scatter pairing check (same index attribute, same axis, accumulating scatter); def-use (alias-only) check of create_power_operator",
       "Decides that the distributor gathers and scatters through the same index on the same axis with an accumulating scatter (so "
       "the adjoint sums over each bin), that the two directions land on target/domain respectively, and that a power operator is "
-      "the diagonal of exactly the distributed spectrum field. power_analyze's binning arithmetic is not decided.", TRUST,
+      "the diagonal of exactly the distributed spectrum field; power_analyze analyses re^2+im^2 (or the pair with phase information, only for complex input), callable/Field discrimination of spectra has no dead branch, the bin index is stored without a narrowing cast, and the bin-volume division (Field.weight) addresses array axes. The binning arithmetic itself is not decided.", TRUST,
       "DESIGN.md section 4, C10")
 
 claim("C11", "must-pass-through (dominance) of add_metric on every return reachable with want_metric, over the computed population of LikelihoodEnergyOperator subclasses",
       "Decides that every classic likelihood energy that computes its value locally attaches a metric on every path on which one is "
       "requested (and checks its input first), that the standard Hamiltonian attaches SamplingEnabler(likelihood metric, prior "
-      "metric, controller) exactly when wanted, and that operator sums carry a metric iff all summands do. That the value is a "
-      "negative log-pdf and the metric the Fisher information is calculus and not decided.", TRUST, "DESIGN.md section 4, C11")
+      "metric, controller) exactly when wanted, and that operator sums carry a metric iff all summands do. Per pixel and on terms read from the source (sympy as normaliser) it also decides, for the Poisson, Bernoulli, categorical, inverse-gamma, Student-t and special-gamma energies, that (dT/dx)^2 = E_d[d^2E/dx^2] and - with the constructor state resolved along every __init__ path - that apply() is the documented -log pdf up to a constant; integer data never enters integer arithmetic; the |f|^2 shortcut of SandwichOperator.make and the flattening of likelihood sums are decided structurally. Gaussian energies with general covariance operators and model compositions are not decided.", TRUST, "DESIGN.md section 4, C11")
 
 claim("C13", "dominance of the refusal guards before every white-noise draw / square root; finite enumeration (from_inverse x stored transformation) of the inverse bookkeeping by mode-specialised interpretation",
       "Decides that operators which cannot represent a covariance refuse to sample (missing dtype, non-positive factor/diagonal, "
       "inverse of a sum, sandwich without invertible bun) before anything is drawn, and that the inverse flag is threaded exactly: "
       "adapters flip it iff the inverse bit is set, the diagonal divides by sqrt(diag) iff from_inverse XOR (trafo>=2), sandwich "
-      "samples are bun^H(cheese sample) / bun^-1(cheese inverse sample). The covariance of the samples is statistical and not decided.",
+      "samples are bun^H(cheese sample) / bun^-1(cheese inverse sample); SumOperator.draw_sample combines the summands' samples with adding combinators only. The covariance of the samples is statistical and not decided.",
       TRUST, "DESIGN.md section 4, C13")
 
 claim("C03", "sibling term comparison of the point-wise table (value column) and rule-based symbolic differentiation with sympy as term normaliser (derivative column); def-use check of the metric request through the combinators",
       "Decides that for every entry of the point-wise table the (value, derivative) helper returns the same value term as plain "
       "evaluation and - for all smooth entries and the smooth pieces of softplus/sinc - a derivative term equal to the symbolic "
       "derivative; and that want_metric is threaded through Linearization.new/trivial_jac/add_metric/make_var, products and sums. "
-      "Decided on expression trees taken from the source; NIFTy is not executed. Jacobians of compositions are not decided.",
+      "The JAX wrappers' adjoint Jacobian is the conjugate transpose (conjugate in, conjugate out), and MultiLinearEinsum looks factors up with the same precedence in value and Jacobian. Decided on expression trees taken from the source; NIFTy is not executed. Jacobians of general compositions are not decided.",
       TRUST + " sympy 1.14 (from the offline wheelhouse) as algebraic normaliser for R03.2.", "DESIGN.md section 4, C03")
 
 claim("C18", "structural checks of the mirror / zero-residual clauses (same-index flag, same residual for both pair members, negation in the JAX samplers, zero insertion for point estimates)",
